@@ -23,7 +23,7 @@ func init() {
 
 func runC10(p *core.Prog, r *core.Report) {
 	c10R1(p, r)
-	c10R2(p, r)
+	c10R2(p, r, "C10.R2")
 	c10R3(p, r)
 	c10R4(p, r)
 	c10R5(p, r)
@@ -312,8 +312,7 @@ func regCacheCalls(p *core.Prog) []cacheCall {
 	return out
 }
 
-func c10R2(p *core.Prog, r *core.Report) {
-	const rule = "C10.R2"
+func c10R2(p *core.Prog, r *core.Report, rule string) {
 	r.Rule(rule, "cache coherence in scheme/reg: keys are SetDigest-normalised; filtered API results are cached only when no artifact-type filter was sent; a subject-bearing put invalidates the subject's list unconditionally and before the fallback update; delete invalidates first", 12)
 	calls := regCacheCalls(p)
 	if len(calls) == 0 {
